@@ -34,9 +34,11 @@ package broker
 
 import (
 	"context"
+	"errors"
 	"fmt"
 	"sort"
 	"strings"
+	"sync"
 	"testing"
 	"testing/synctest"
 	"time"
@@ -45,6 +47,7 @@ import (
 	"pgregory.net/rapid"
 	"verif.local/vfkit"
 
+	metadatapb "github.com/KafScale/platform/pkg/gen/metadata"
 	"github.com/KafScale/platform/pkg/metadata"
 	"github.com/KafScale/platform/pkg/protocol"
 )
@@ -81,6 +84,13 @@ type c43Spec struct {
 	StartMs int `json:"start_ms"`
 	Fate    int `json:"fate"`
 	FateMs  int `json:"fate_ms"`
+	// voluntary re-join of the (by then known) member id at ReJoinAtMs: optionally announcing a
+	// different session timeout (and heartbeating at ReHMs from then on), optionally with the
+	// store's PutConsumerGroup failing once during that JoinGroup
+	ReJoinAtMs int  `json:"rejoin_at_ms,omitempty"`
+	ReSessMs   int  `json:"resess_ms,omitempty"`
+	ReHMs      int  `json:"rehb_ms,omitempty"`
+	ReFault    bool `json:"refault,omitempty"`
 }
 
 type c43Env struct {
@@ -103,6 +113,8 @@ type c43Client struct {
 	lastReq    time.Duration
 	lastRefReq time.Duration // last join or heartbeat request
 	rejoinAt   time.Duration // slow re-join pending (ReactMs > 0)
+	reDone     bool          // the voluntary re-join instant has passed
+	rePending  bool          // ... and its session change / write fault apply to the next JoinGroup
 	joinedOnce bool
 	safe       bool
 	// recorded at the last request of a client that goes silent
@@ -126,6 +138,7 @@ type c43Result struct {
 
 type c43Sim struct {
 	c         *GroupCoordinator
+	fs        *c43FaultStore
 	ctx       context.Context
 	env       c43Env
 	opts      c43Opts
@@ -157,6 +170,30 @@ func (s *c43Sim) tr(format string, args ...any) {
 	if len(s.res.trace) < 6000 {
 		s.res.trace = append(s.res.trace, fmt.Sprintf("%9.3fs ", s.now().Seconds())+fmt.Sprintf(format, args...))
 	}
+}
+
+type c43TagKey struct{}
+
+// c43FaultStore fails ONE PutConsumerGroup of a tagged request when armed.
+type c43FaultStore struct {
+	*metadata.InMemoryStore
+	mu     sync.Mutex
+	armed  bool
+	faults int
+}
+
+func (f *c43FaultStore) PutConsumerGroup(ctx context.Context, g *metadatapb.ConsumerGroup) error {
+	if ctx != nil && ctx.Value(c43TagKey{}) != nil {
+		f.mu.Lock()
+		if f.armed {
+			f.armed = false
+			f.faults++
+			f.mu.Unlock()
+			return errors.New("vf: injected transient store write error")
+		}
+		f.mu.Unlock()
+	}
+	return f.InMemoryStore.PutConsumerGroup(ctx, g)
 }
 
 type c43WB struct {
@@ -296,6 +333,25 @@ func c43Bucket(d, sess time.Duration) string {
 
 func (s *c43Sim) join(c *c43Client) {
 	now := s.now()
+	ctx := s.ctx
+	if c.rePending {
+		c.rePending = false
+		if c.ReSessMs > 0 {
+			// from this request on the announced session timeout is the new one
+			s.tr("c%d announces session %dms (was %dms), heartbeat %dms", c.idx, c.ReSessMs, c.SessMs, c.ReHMs)
+			s.res.classes[fmt.Sprintf("rejoin/session-%s", c43Cmp(c.ReSessMs, c.SessMs))]++
+			s.res.feats["session-changed-on-rejoin"] = true
+			c.SessMs, c.HMs = c.ReSessMs, c.ReHMs
+		}
+		if _, known := s.prev.members[c.id]; c.ReFault && c.id != "" && known {
+			s.fs.mu.Lock()
+			s.fs.armed = true
+			s.fs.mu.Unlock()
+			ctx = context.WithValue(s.ctx, c43TagKey{}, c.idx)
+			s.res.classes["rejoin/store-write-fault-armed"]++
+			s.res.feats["write-fault-on-rejoin"] = true
+		}
+	}
 	req := kmsg.NewPtrJoinGroupRequest()
 	req.Group = c43Group
 	req.MemberID = c.id
@@ -308,7 +364,10 @@ func (s *c43Sim) join(c *c43Client) {
 	req.Protocols = append(req.Protocols, p)
 	_, wasMember := s.prev.members[c.id]
 	s.firstJoin = c.id == "" || !wasMember || c.gen != s.prev.gen
-	resp, err := s.c.JoinGroup(s.ctx, req)
+	resp, err := s.c.JoinGroup(ctx, req)
+	s.fs.mu.Lock()
+	s.fs.armed = false
+	s.fs.mu.Unlock()
 	c.lastReq, c.lastRefReq = now, now
 	if err != nil || resp == nil {
 		s.violate("JoinGroup error %v", err)
@@ -331,6 +390,16 @@ func (s *c43Sim) join(c *c43Client) {
 	default:
 		c.st, c.next = c43StJoining, now+c43Ms(c.RetryMs)
 	}
+}
+
+func c43Cmp(a, b int) string {
+	switch {
+	case a < b:
+		return "shorter"
+	case a > b:
+		return "longer"
+	}
+	return "same"
 }
 
 func c43Phase(p groupPhase) string {
@@ -516,7 +585,8 @@ func c43Simulate(t *testing.T, env c43Env, opts c43Opts) *c43Result {
 			Topics: []protocol.MetadataTopic{{Topic: kmsg.StringPtr("ta"), Partitions: ps}}})
 		s := &c43Sim{ctx: context.Background(), env: env, opts: opts, res: res, t0: time.Now(), interval: c43Ms(env.CleanupMs)}
 		s.nextTick = s.interval
-		s.c = NewGroupCoordinator(store, brk, &CoordinatorConfig{CleanupInterval: s.interval})
+		s.fs = &c43FaultStore{InMemoryStore: store}
+		s.c = NewGroupCoordinator(s.fs, brk, &CoordinatorConfig{CleanupInterval: s.interval})
 		defer s.c.Stop()
 		horizon := time.Duration(0)
 		for i, sp := range env.Clients {
@@ -534,7 +604,10 @@ func c43Simulate(t *testing.T, env c43Env, opts c43Opts) *c43Result {
 			if sp.Fate != c43FateRun && c43Ms(sp.FateMs) > end {
 				end = c43Ms(sp.FateMs)
 			}
-			end += c43Ms(sp.SessMs) + s.interval + 3*time.Second
+			if sp.ReJoinAtMs > 0 && c43Ms(sp.ReJoinAtMs) > end {
+				end = c43Ms(sp.ReJoinAtMs)
+			}
+			end += c43Ms(max(sp.SessMs, sp.ReSessMs)) + s.interval + 3*time.Second
 			if end > horizon {
 				horizon = end
 			}
@@ -551,6 +624,10 @@ func c43Simulate(t *testing.T, env c43Env, opts c43Opts) *c43Result {
 			sess := c43Ms(c.SessMs)
 			c.safe = c43Ms(c.HMs) < sess && c43Ms(c.LatMs) < sess && c43Ms(c.RetryMs) < sess &&
 				c43Ms(c.HMs+c.LatMs) < s.rtMin && c43Ms(c.RetryMs+c.LatMs) < s.rtMin
+			if c.ReSessMs > 0 {
+				s2 := c43Ms(c.ReSessMs)
+				c.safe = c.safe && c43Ms(c.ReHMs) < s2 && c43Ms(c.LatMs) < s2 && c43Ms(c.RetryMs) < s2 && c43Ms(c.ReHMs+c.LatMs) < s.rtMin
+			}
 			if c.ReactMs > 0 {
 				// keeps heartbeating every h < S while it takes ReactMs to re-join: the session
 				// clause protects it as long as the re-join still beats every rebalance deadline
@@ -581,6 +658,9 @@ func c43Simulate(t *testing.T, env c43Env, opts c43Opts) *c43Result {
 				case c43StNew, c43StJoining, c43StSyncing, c43StStable:
 					if c.Fate != c43FateRun {
 						consider(c, "fate", c43Ms(c.FateMs)+c.off)
+					}
+					if c.ReJoinAtMs > 0 && !c.reDone {
+						consider(c, "rejoin", c43Ms(c.ReJoinAtMs)+c.off)
 					}
 					consider(c, "act", c.next)
 				case c43StDead:
@@ -622,6 +702,14 @@ func c43Simulate(t *testing.T, env c43Env, opts c43Opts) *c43Result {
 				}
 			case "check":
 				s.checkGone(who, w)
+			case "rejoin":
+				who.reDone, who.rePending = true, true
+				if who.st == c43StStable && who.rejoinAt == 0 {
+					s.res.classes["rejoin/voluntary-in-stable"]++
+					s.join(who)
+				} else {
+					s.res.classes["rejoin/applies-to-next-join"]++
+				}
 			case "act":
 				switch who.st {
 				case c43StNew, c43StJoining:
@@ -760,6 +848,22 @@ func c43DrawEnv(t *rapid.T, clampHB bool, excluded *int) c43Env {
 			}
 		}
 		sp.StartMs = rapid.SampledFrom([]int{0, 0, 0, 300, 1500, 4000, 9000, 20000}).Draw(t, "start") + rapid.IntRange(0, 999).Draw(t, "startjit")
+		if rj := rapid.SampledFrom([]int{0, 0, 0, 1, 1, 2, 3}).Draw(t, "rejoinkind"); rj > 0 {
+			// 1: new session timeout, 2: store write fault, 3: both
+			sp.ReJoinAtMs = sp.StartMs + rapid.SampledFrom([]int{1500, 3000, 6000, 10000, 16000}).Draw(t, "rejoinafter") + rapid.IntRange(0, 999).Draw(t, "rejoinjit")
+			if rj != 2 {
+				sp.ReSessMs = rapid.SampledFrom([]int{3000, 5000, 10000, 30000}).Draw(t, "resess")
+				b2 := sp.ReSessMs
+				if rtMin-500 < b2 {
+					b2 = rtMin - 500
+				}
+				sp.ReHMs = b2 * frac / 100
+				if clampHB && sp.ReHMs+sp.LatMs >= sp.ReSessMs-50 {
+					sp.ReHMs = sp.ReSessMs - sp.LatMs - 100
+				}
+			}
+			sp.ReFault = rj >= 2
+		}
 		sp.Fate = rapid.SampledFrom([]int{c43FateRun, c43FateRun, c43FateDie, c43FateDie, c43FateDie, c43FateLeave}).Draw(t, "fate")
 		if sp.Fate != c43FateRun {
 			sp.FateMs = sp.StartMs + rapid.SampledFrom([]int{0, 50, 500, 2000, 6000, 12000, 25000, 40000}).Draw(t, "fateafter") + rapid.IntRange(0, 2999).Draw(t, "fatejit")
